@@ -889,6 +889,13 @@ def depends_on(c, chk):
     sub16 = report.SubCheck(chk, 'R1.12', 'C16', only=('R16.1',))
     c16.run(c, sub16)
     sub16.done('schema copy')
+    # R1.14: a function call in the text means "this function, these arguments": the arguments of one call are not those of
+    # the calls before it (rule R14.4 of C14: the buffer is emptied after every call)
+    from . import c14 as _c14x
+    chk.rule('R1.14', 'a function call receives exactly the arguments written between its parentheses (rule R14.4 of C14)')
+    sub14 = report.SubCheck(chk, 'R1.14', 'C14', only=('R14.4',))
+    _c14x.run(c, sub14)
+    sub14.done('function arguments')
     for rid, mod, pid, label in (('R1.8', c03, 'C03', 'token decoding'), ('R1.9', c04, 'C04', 'value conversion'), ('R1.10', c12, 'C12', 'undeclared items')):
         sub = report.SubCheck(chk, rid, pid)
         mod.run(c, sub)
